@@ -291,11 +291,18 @@ func init() {
 		if len(p) == 0 {
 			return Bool{C: true}
 		}
-		if hasOpaque(s) || hasOpaque(p) {
-			panic(inconclusive{"HasPrefix on opaque string"})
+		if hasOpaque(p) {
+			panic(inconclusive{"HasPrefix with opaque prefix"})
 		}
+		// only the first len(p) pieces matter; they must be plain bytes
 		if len(s) < len(p) {
+			if hasOpaque(s) {
+				panic(inconclusive{"HasPrefix on opaque string"})
+			}
 			return Bool{C: false}
+		}
+		if hasOpaque(s[:len(p)]) {
+			panic(inconclusive{"HasPrefix on opaque string"})
 		}
 		return bytesEq(s[:len(p)], p)
 	}
@@ -544,6 +551,25 @@ func init() {
 		e.declUF(okN, sig.String()+" Bool")
 		e.declUF(valN, sig.String()+" "+fpSort)
 		okT := &Term{S: "(" + okN + " " + joinTerms(as) + ")"}
+		bytesOf := func(vals []string) string {
+			b := make([]byte, len(vals))
+			for i, v := range vals {
+				b[i] = byte(parseBV(v))
+			}
+			return string(b)
+		}
+		e.ufApps = append(e.ufApps,
+			ufApp{term: okT.S, args: as, eval: func(vals []string) (string, bool) {
+				_, err := strconv.ParseFloat(bytesOf(vals), 64)
+				return strconv.FormatBool(err == nil), true
+			}},
+			ufApp{term: "(" + valN + " " + joinTerms(as) + ")", args: as, eval: func(vals []string) (string, bool) {
+				f, err := strconv.ParseFloat(bytesOf(vals), 64)
+				if err != nil {
+					return "", false
+				}
+				return fpLit(f), true
+			}})
 		if !e.branch(okT) {
 			return tuple{Float{}, e.newError("strconv.ParseFloat: invalid syntax", nil)}
 		}
